@@ -56,7 +56,7 @@ _p("C03", "bounded exhaustive enumeration of source configurations (command line
    "DESIGN.md 6 C03")
 _p("C04", "bounded exhaustive enumeration of byte-level argument vectors with fork-isolated totality oracle + reference accept/reject boundary",
    "model checking of the implementation: 12 declarations x every argument vector up to the bound over a 54-token byte-level alphabet "
-   "(whole malformed family) x environments + long-token stress cases (up to 200 kB) through both entry points parse(argc, argv) and "
+   "(whole malformed family) x environments + long-token stress cases (up to 200 kB) and every rejected-token length 1..300 through both entry points parse(argc, argv) and "
    "parse(std::vector<user_input>), second parses, parsers used before their declaration was complete or re-used through move assignment; every execution must return or throw exactly parsing_error "
    "(crash, terminate, other exception, sanitizer report, hang are attributed to the case) and accept exactly when the reference accepts",
    "DESIGN.md 6 C04")
